@@ -192,6 +192,15 @@ class Concretiser:
         for v, c in opaque._literals["float"].items():
             if str(self.ev(c)) == key:
                 return v
+        # a bit pattern the model pins to literal bytes (e.g. the negative zero)
+        try:
+            import struct
+            bits = str(self.ev(opaque.f64bits(t)))
+            for bv, c in opaque._literals["bytes"].items():
+                if len(bv) == 8 and str(self.ev(c)) == bits:
+                    return struct.unpack(">d", bv)[0]
+        except Exception:        # noqa: BLE001
+            pass
         return 1.5 + (abs(hash(key)) % 1000)
 
     def segs(self, segs):
